@@ -21,6 +21,13 @@ stdout is captured, and the record is judged by
   reuse       driver-reuse sequences (case kind "reuse"): ONE optimiser object, 2-3 run() calls on fresh Molecules
               (converging run then cap-bound run, the reverse, three-run orders); every run is judged with the update /
               descent / stop / returned / report / padding clauses, so nothing of an earlier run may leak into a later one
+  continue    continuation sequences (case kind "continue"): run N then run M (then L) on the SAME molecule + optimiser
+              must follow the uninterrupted N+M(+L) path (1e-10 A), every reported step must be exactly one true
+              energy/force evaluation (counting wrapper on the driver's forward), and the force / energy reported at the
+              first step of a run on a molecule that already carries force + Etot (second leg; single point -> in-place
+              distortion -> run) must be those of an independent single point at the reported coordinates
+  tolerance   force_tol in {0, 1e-9, 1e-7} with scf_eps 1e-8..1e-10 on fast-converging diatomics (alpha 8e-3): the stop
+              rule is judged against the REQUESTED tolerance
   isolation   path of every molecule alone (same alpha / tolerance / cap) equals its path in the batch within 1e-7 A on
               the common prefix (alpha <= 2e-3; for larger alpha the update map can be expansive, so only the first
               three evaluations are judged and the rest recorded)
@@ -41,7 +48,8 @@ ASSUMPTIONS = ["float64 CPU", "scf_eps 1e-10 (some 1e-8): force noise 2e3 eps be
                "descent asserted only for alpha <= 2e-3 (DESIGN: at 2e-2 a C=O stretch legitimately overshoots)",
                "the tie 'criterion first met on the cap-th evaluation' is recorded, not judged (statement leaves it open)",
                "dE of a run with a single evaluation (E_1 - 0) is recorded, not judged"]
-REQUIRED_MONITORS = ["dispersion_runs", "onestep_calls", "independent_single_points", "runs_stopped_by_criterion", "runs_stopped_by_cap",
+REQUIRED_MONITORS = ["dispersion_runs", "continuation_second_run_first_steps_checked", "continuation_steps_compared",
+                     "true_evaluations_counted", "runs_with_force_tol_below_10_scf_eps_that_reached_it", "onestep_calls", "independent_single_points", "runs_stopped_by_criterion", "runs_stopped_by_cap",
                      "padding_atoms_checked", "alone_vs_batch_rows", "reuse_cap_run_after_converged_run",
                      "reuse_converged_run_after_cap_run"]
 CASE_TIMEOUT = 900.0
@@ -107,6 +115,28 @@ def gen_cases(tier, seed):
         cases.append({"kind": "reuse", "mols": mols, "method": method, "solver": solver, "solver_par": par, "eps": 1e-10,
                       "grad": ["autodiff", "analytical"][k % 2], "alpha": float([2e-3, 1e-3][k % 2]), "sigma": 0.05,
                       "extra_pad": int(k % 2), "pad_value": ["zero", "far"][k % 2], "runs": runs, "cap": 0})
+    # continuation: same molecule + optimiser run again / single point, in-place distortion, run
+    clist = [("split", [5, 5]), ("sp-distort", [4]), ("split", [3, 4, 3]), ("split", [1, 6])] if q else \
+            [("split", [5, 5]), ("sp-distort", [4]), ("split", [3, 4, 3]), ("split", [1, 6]), ("sp-distort", [6]),
+             ("split", [8, 1]), ("split", [4, 4]), ("sp-distort", [3])] * 3
+    csmall = ["H2O", "NH3", "HF", "CH4", "HCN", "CO", "H2S", "CH2O"]
+    for k, (mode, legs) in enumerate(clist):
+        method = methods[k % len(methods)]
+        names = [m for m in csmall if gen.available(m, method)]
+        mols = [names[int(i)] for i in g.choice(len(names), 1 + k % 2, replace=False)]
+        solver, par = [("adaptive", None), ("pulay", None), ("mix", 0.3)][k % 3]
+        cases.append({"kind": "continue", "mode": mode, "legs": legs, "mols": mols, "method": method, "solver": solver,
+                      "solver_par": par, "eps": 1e-10, "grad": ["autodiff", "analytical"][k % 2], "alpha": float([2e-3, 1e-3, 5e-3][k % 3]),
+                      "sigma": 0.05, "extra_pad": int(k % 2), "pad_value": ["zero", "far"][k % 2],
+                      "geom_seed": int(g.integers(0, 2 ** 31)), "cap": sum(legs)})
+    # tolerance sweep on fast-converging systems: force_tol below 10 scf_eps (incl. 0 = "run to the cap")
+    tlist = [(0.0, 1e-8, 40), (1e-9, 1e-8, 60), (1e-7, 1e-9, 60), (1e-9, 1e-10, 60)] if q else \
+            [(t, e, c) for t in (0.0, 1e-9, 1e-7) for e in (1e-8, 1e-9, 1e-10) for c in (45, 60)]
+    for k, (ft, eps, cap_t) in enumerate(tlist):
+        cases.append({"mols": [["HF", "H2"], ["H2", "HF"], ["HF"], ["H2", "H2"]][k % 4], "method": ["AM1", "PM3", "MNDO"][k % 3],
+                      "solver": ["adaptive", "pulay"][k % 2], "solver_par": None, "eps": eps, "grad": ["autodiff", "analytical"][k % 2],
+                      "alpha": 0.008, "stop": ["abs", ft], "cap": cap_t, "sigma": 0.03, "extra_pad": 0, "pad_value": "zero",
+                      "tolsweep": True, "geom_seed": int(g.integers(0, 2 ** 31))})
     # AM1-FS1 dispersion switched on, weakly bound complex: energy and force must stay consistent along the run
     dlist = [(4.5, False, 2e-3, "autodiff")] if q else [(4.5, False, 2e-3, "autodiff"), (4.5, True, 2e-3, "autodiff"),
                                                           (4.0, False, 1e-3, "autodiff"), (5.0, False, 2e-3, "analytical"),
@@ -538,11 +568,110 @@ def _run_reuse(case):
             "cells": sorted(cells), "obs": {"runs": obs_runs}}
 
 
+def _run_continue(case):
+    """continuation / reuse of a Molecule that already carries force and Etot:
+      split        run(cap N) then run(cap M) [then run(cap L)] on the SAME molecule + optimiser  ==  one uninterrupted
+                   run(cap N+M[+L]) on fresh objects: same positions after every reported step, cap = number of true
+                   energy/force evaluations in every leg
+      sp-distort   single point with the optimiser's own driver, in-place distortion of molecule.coordinates, then run
+    in both, the force / energy reported at the FIRST step of a run on such a molecule (and at its last step) must be
+    those of an independent single point at the reported coordinates, and every leg obeys the per-run clauses."""
+    import torch
+    from vlib import run
+
+    viol, margins, mon, cells = [], {}, {}, set()
+    tag = {"leg": 0}
+
+    def count(k, n=1):
+        mon[k] = mon.get(k, 0) + int(n)
+
+    def margin(name, val, bound):
+        return _margin(margins, name, val, bound)
+
+    def violate(clause, **detail):
+        if len(viol) < 12:
+            detail.update({"mols": case["mols"], "alpha": case["alpha"], "mode": case["mode"], "leg": tag["leg"],
+                           "legs": case["legs"]})
+            viol.append({"clause": clause, "mech": None, "detail": detail})
+
+    S, C0, charges, mults = _batch(case)
+    nmol = S.shape[0]
+    real = S > 0
+    ch = charges if len(set(charges)) > 1 else charges[0]
+    alpha = float(case["alpha"])
+    tol = 1e-12  # never met: every leg ends at its cap
+    legs = [int(x) for x in case["legs"]]
+    cells.add("continue/%s/legs%d" % (case["mode"], len(legs)))
+    cells.add("solver/%s/%s/%s" % (case["method"], case["solver"], case["grad"]))
+    drv = {}
+    obs = {"legs": []}
+    if case["mode"] == "split":
+        ref = _sd_run(case, S, C0, charges, mults, alpha, tol, sum(legs))
+        count("onestep_calls", len(ref["rec"]))
+        if any(r["nc"] is not None and r["nc"].any() for r in ref["rec"]):
+            return {"ineligible": "an SCF inside the optimisation was flagged not converged", "monitors": mon}
+        path = []
+        x_start = C0
+        for j, cap in enumerate(legs):
+            tag["leg"] = j
+            out = _sd_run(case, S, x_start, charges, mults, alpha, tol, cap, drv=drv, reuse_mol=(j > 0))
+            count("onestep_calls", len(out["rec"]))
+            count("sd_runs")
+            if not out["rec"]:
+                return {"inconclusive": "onestep wrapper saw no call", "monitors": mon}
+            if any(r["nc"] is not None and r["nc"].any() for r in out["rec"]):
+                return {"ineligible": "an SCF inside the optimisation was flagged not converged", "monitors": mon}
+            _judge_basic(count, margin, violate, cells, case, out, S, x_start, alpha, tol, cap)
+            if j > 0:
+                count("continuation_second_run_first_steps_checked")
+            _fresh_force(count, margin, violate, cells, case, S, ch, out["rec"], sorted({0, len(out["rec"]) - 1}))
+            path += out["rec"]
+            x_start = out["x_final"]
+            obs["legs"].append({"cap": cap, "reported_steps": len(out["rec"]), "true_evaluations": sum(r["nes"] for r in out["rec"]),
+                                "first_max_force": float(np.abs(out["rec"][0]["F"]).max())})
+        tag["leg"] = -1
+        if len(path) != len(ref["rec"]):
+            violate("continued-run-equals-uninterrupted-run", steps_split=len(path), steps_uninterrupted=len(ref["rec"]))
+        pre = min(len(path), len(ref["rec"]))
+        d = max(float(np.abs(path[i]["xa"] - ref["rec"][i]["xa"])[real].max()) for i in range(pre))
+        count("continuation_steps_compared", pre)
+        if margin("continued_vs_uninterrupted_path", d, 1e-10):
+            i_bad = next(i for i in range(pre) if not (float(np.abs(path[i]["xa"] - ref["rec"][i]["xa"])[real].max()) <= 1e-10))
+            violate("continued-run-equals-uninterrupted-run", max_diff_A=d, first_differing_step=i_bad + 1,
+                    max_force_split=float(np.abs(path[i_bad]["F"]).max()), max_force_uninterrupted=float(np.abs(ref["rec"][i_bad]["F"]).max()))
+        obs["max_path_diff_A"] = d
+    else:
+        # single point first (driver of a throw-away run of one step gives us optimiser + molecule + wrappers)
+        out0 = _sd_run(case, S, C0, charges, mults, alpha, tol, 1, drv=drv)
+        count("onestep_calls", len(out0["rec"]))
+        mol = drv["mol"]
+        g = np.random.default_rng(case["geom_seed"] + 7)
+        delta = g.normal(0, 0.04, C0.shape) * real[..., None]
+        with torch.no_grad():
+            mol.coordinates.copy_(run.tens(C0 + delta))  # in-place: force / Etot / dm of the old geometry stay on the molecule
+        x_start = mol.coordinates.detach().clone().numpy()
+        tag["leg"] = 1
+        out = _sd_run(case, S, x_start, charges, mults, alpha, tol, legs[0], drv=drv, reuse_mol=True)
+        count("onestep_calls", len(out["rec"]))
+        count("sd_runs")
+        if not out["rec"]:
+            return {"inconclusive": "onestep wrapper saw no call", "monitors": mon}
+        if any(r["nc"] is not None and r["nc"].any() for r in out["rec"]):
+            return {"ineligible": "an SCF inside the optimisation was flagged not converged", "monitors": mon}
+        _judge_basic(count, margin, violate, cells, case, out, S, x_start, alpha, tol, legs[0])
+        count("continuation_second_run_first_steps_checked")
+        _fresh_force(count, margin, violate, cells, case, S, ch, out["rec"], sorted({0, len(out["rec"]) - 1}))
+        obs["legs"].append({"cap": legs[0], "reported_steps": len(out["rec"]), "true_evaluations": sum(r["nes"] for r in out["rec"])})
+    return {"nontrivial": True, "violations": viol, "margins": margins, "monitors": mon, "cells": sorted(cells), "obs": obs}
+
+
 def run_case(case):
     from vlib import run
 
     if case.get("kind") == "reuse":
         return _run_reuse(case)
+    if case.get("kind") == "continue":
+        return _run_continue(case)
 
     viol, margins, mon, cells = [], {}, {}, set()
 
@@ -586,6 +715,11 @@ def run_case(case):
     cells.add("alpha/%g" % alpha)
     cells.add("layout/nmol%d/pad%s" % (nmol, "yes" if (~real).any() else "no"))
     jb = _judge_basic(count, margin, violate, cells, case, out, S, C0, alpha, tol, cap)
+    if tol < 10.0 * float(case["eps"]):
+        count("runs_with_force_tol_below_10_scf_eps")
+        cells.add("tolerance/force_tol-%g/scf_eps-%g" % (tol, case["eps"]))
+        if bool((jb["m"] < 10.0 * float(case["eps"])).any()):
+            count("runs_with_force_tol_below_10_scf_eps_that_reached_it")
     m, E, by_criterion, by_cap, tie, rF, rE, text = (jb[k] for k in ("m", "E", "by_criterion", "by_cap", "tie", "rF", "rE", "text"))
     # ---- independent single points at recorded x_i ------------------------------------------------------
     idx = list(range(n)) if n <= 8 else sorted(set([0, 1, 2, n - 3, n - 2, n - 1] + [int(i) for i in np.random.default_rng(case["geom_seed"] + 1).choice(n, 3, replace=False)]))
